@@ -5,9 +5,9 @@ from vlib.core import Query
 SHIMS = ["uatomic_seq.h", "upool_depth0.h"]
 UW = ["urefcount_release:3", "ubuf_free:2", "ubuf_block_mem_free:2", "ubuf_dup:2", "ubuf_block_common_clean.0:2",
       "ubuf_block_get.0:3", "ubuf_block_delete.0:3", "ubuf_block_common_dup.0:2", "strlen.0:40", "strcmp.0:40", "strncmp.0:40", "memcmp.0:40"]
-PIPES = {1: "idem", 2: "skip", 3: "setattr", 4: "setflowdef", 5: "probe_uref", 6: "delay", 7: "htons", 8: "null", 9: "match_attr"}
+PIPES = {1: "idem", 2: "skip", 3: "setattr", 4: "setflowdef", 5: "probe_uref", 6: "delay", 7: "htons", 8: "null", 9: "match_attr", 10: "helper_built", 11: "helper_hold"}
 OPN = {0: "def(block.)", 1: "def(block.other.)", 2: "def(pic.)", 3: "out(S0)", 4: "out(S1)", 5: "out(NULL)", 6: "input", 7: "flush",
-       8: "S0.reject", 9: "S0.accept"}
+       8: "S0.reject", 9: "S0.accept", 10: "rebuild_flow_def", 11: "credit+1", 12: "drain", 13: "credit+2"}
 
 
 def seqs(alphabet, k, first=None, last=None, must=(), min_count=None):
@@ -30,7 +30,7 @@ def query(prop, pipe, ops, timeout=280, witness_delivered=0, sample=False, repla
     return Query(name=name, harness="pipe_seq.c",
                  defines=["PIPE=%d" % pipe, "OPS=" + ",".join(map(str, ops)), "WITNESS_DELIVERED=%d" % witness_delivered] +
                  (["ENV_COUNT_MGRS"] if count_mgrs else ["VERIF_POOL_NO_MGR_REF"]),
-                 shims=SHIMS, unwind=8, unwindset=UW, fp_restrict=True, timeout=timeout, leak=True, replay_witness=replay,
+                 shims=SHIMS, unwind=max(8, len(ops) + 2), unwindset=UW, fp_restrict=True, timeout=timeout, leak=True, replay_witness=replay,
                  sample={"pipe": PIPES[pipe], "operations": [OPN[o] for o in ops] + ["release"],
                          "symbolic": "payload octets (3 per buffer), option values"} if sample else None)
 
